@@ -53,7 +53,7 @@ bool registered = false;
 }  // namespace
 
 extern "C" int LLVMFuzzerTestOneInput(const uint8_t *data, size_t size) {
-    if (!registered) { registered = true; atexit(dump); }
+    if (!registered) { registered = true; atexit(dump); std::string v = verif_static_init_verdict(); if (!v.empty()) { fprintf(stderr, "   why: %s\n", v.c_str()); __builtin_trap(); } }
     verif::Case c;
     verif::case_environment(data, size);
     int v = verif_case(data, size, c);
